@@ -11,7 +11,9 @@ tokens for objects with unusual behaviour (None, falsy, raising __eq__/__bool__/
 library knows, BaseException-only errors); a case may switch debug options on (KEEP_DEPENDENCIES is part of the model,
 the DUMP_* / profiling options must not change anything); batches of 17 - 300 items form a family of their own.
 A case of the harness subclass may give `_cancel()` - the protected hook BatchBase._computed calls - an Exception to raise
-(key `hook`; model Lib/BatchingHook.lean): before /repo fix f2f3435 the code then violated C11 (finding user/cancel-hook-raises, repaired: the hook is now treated like an on_computed callback; the model follows the repaired code, C11_spec_holds_hook).
+(key `hook`; model Lib/BatchingHook.lean): before /repo fix f2f3435 the code then violated C11 (finding user/cancel-hook-raises, repaired:
+the hook is now treated like an on_computed callback; the model follows the repaired code - its hook parameter is inert,
+C11_spec_holds_hook holds by construction and the claim is carried by the correspondence run).
 The family `reenter` (a flush body or a completion handler that cancels the batch it is called from) lies outside the
 model: it is sent to the driver in mode `batchingx` and judged by the observer (mode rx) and a direct expectation only.
 
@@ -50,10 +52,8 @@ PID = "C11"
 LEVEL = "proof"
 LEAN_MODULES = ["AsynqModel.Theorems.C11", "AsynqModel.Theorems.C11s"]
 HEADLINE = [
-    # the observer accepts every history of the model (for the code as it is: under the hypothesis that the subclass's
-    # `_cancel()` hook does not raise, `hook = none`); the invariant; the inductive step for EVERY snapshot inside the
+    # the observer accepts every history of the model; the invariant; the inductive step for EVERY snapshot inside the
     # invariant (hypothesis `Good s`, decidable - weaker than reachability)
-    "AsynqModel.Batching.C11_spec_holds_hook",
     "AsynqModel.Batching.C11_spec_holds",
     "AsynqModel.Batching.C11_no_item_left_pending",
     "AsynqModel.Batching.C11_step_accepted",
@@ -71,7 +71,7 @@ HEADLINE = [
     "AsynqModel.Batching.C11_fresh_batch_during_flush",
     "AsynqModel.Batching.C11_set_outcome_kept",
     "AsynqModel.Batching.completeItem_fuel_enough",
-    # necessity of the hypotheses (machine-checked witnesses): `Good s`; `hook = none` (= the OPEN FINDING)
+    # necessity of the hypothesis `Good s` (machine-checked witness)
     "AsynqModel.Batching.C11_invariant_needed",
     # several services interleaved, free-standing batches, KEEP_DEPENDENCIES switched in mid-flight (Theorems/C11s.lean)
     "AsynqModel.Batching.C11_services_spec_holds",
@@ -83,6 +83,7 @@ HEADLINE = [
 # hold by construction of the model (one unfolding, ANY state): audited for axioms, not part of the claim - the content
 # of these clauses of the property is the correspondence check (observer clauses on the recorded result of the real call)
 BY_CONSTRUCTION = [
+    "AsynqModel.Batching.C11_spec_holds_hook",
     "AsynqModel.Batching.C11_second_flush_error",
     "AsynqModel.Batching.C11_cancel_finished_noop",
     "AsynqModel.Batching.C11_no_add_after_finish",
@@ -94,8 +95,11 @@ BY_CONSTRUCTION_WHY = {
     "C11_second_flush_error": "step (.flush b) on a finished batch is literally (s, raised batching, [])",
     "C11_cancel_finished_noop": "step (.cancel b x) on a finished batch is literally (s, unit, [])",
     "C11_no_add_after_finish": "newItemOn refuses a finished batch: step (.addTo b p) is literally (s, raised assertAdd, [])",
-    "C11_flush_cancel_return": "the model without the _cancel hook has no exception channel out of flush()/cancel(); with "
-                               "the hook it has one and the clause is FALSE: C11_cancel_hook_counterexample",
+    "C11_spec_holds_hook": "stepH ignores its hook parameter (stepH _ := step, the code since fix f2f3435 catches an Exception "
+                           "out of _cancel()): the theorem is C11_spec_holds re-stated; THAT a raising hook changes nothing is "
+                           "the correspondence run of the cases with key `hook` (third audit, section C)",
+    "C11_flush_cancel_return": "the model has no exception channel out of flush()/cancel() (nor has the _cancel hook since "
+                               "fix f2f3435: BatchBase._computed catches an Exception it raises)",
     "C11_services_independent": "stepM touches component v only: the model gives every service its own state because the "
                                 "code looks the slot up under self.name only; that the real services do not disturb each "
                                 "other is the correspondence check",
@@ -152,10 +156,12 @@ ASSUMPTIONS = [
     "is still False; reproduced on the current tree: runs=2) - not generated, not modelled, no theorem",
     "the protected hook `_try_switch_active_batch()` only installs a fresh batch (its docstring: 'Must never throw an "
     "error').  The hook `_cancel()` IS part of model and generator (case key `hook`: the harness subclass's _cancel() "
-    "raises an Exception token 1-4; model Lib/BatchingHook.lean stepH): covered without hypothesis by C11_spec_holds_hook since /repo fix f2f3435 (before it: "
-    "cancel() raised and the items stayed pending for ever, finding `user/cancel-hook-raises`).  A `_cancel()` that "
+    "raises an Exception token 1-4; model Lib/BatchingHook.lean stepH, which ignores the hook since /repo fix f2f3435 - the "
+    "claim 'a raising hook changes nothing' is carried by the correspondence run, C11_spec_holds_hook holds by construction; before the fix: "
+    "cancel() raised and the items stayed pending for ever, finding `user/cancel-hook-raises`, fixed).  A `_cancel()` that "
     "raises a BaseException which is not an Exception is not generated (the fix treats the hook like an "
-    "on_computed callback, futures.py:131-140: Exceptions are reported and swallowed, BaseExceptions propagate); "
+    "on_computed callback, futures.py:131-140: Exceptions are reported and swallowed, BaseExceptions propagate - probed: "
+    "cancel() raises it, the batch is computed, its item stays pending, i.e. the behaviour `stepHook` describes); "
     "DebugBatch._cancel is library code (a debug line) and has no hook in the model",
     "the interpreter runs with assertions enabled: 'no item can be added to a finished batch' is an `assert` in "
     "BatchItemBase.__init__ (batching.py:210-212); under `python -O` / PYTHONOPTIMIZE the constructor ACCEPTS the item, "
@@ -190,9 +196,9 @@ ASSUMPTIONS = [
     "for DebugBatch the flush body itself cannot be hooked through public API: its runs are observed through the "
     "item completions only (run counter fixed to 0, no body/bodyEnd events; the observer then demands the outcome "
     "None or FutureIsAlreadyComputed)",
-    "`flush()` / `cancel()` return normally: without the hook true of the model by construction "
+    "`flush()` / `cancel()` return normally: true of the model by construction "
     "(C11_flush_cancel_return, BY_CONSTRUCTION); for the implementation it is the observer's clauses flush-total / "
-    "cancel-total on the recorded result - which is how the open finding is seen",
+    "cancel-total on the recorded result - which is how the former finding user/cancel-hook-raises (fixed f2f3435) was seen",
     "'with the value the flush body set': the observer does not see the scripts, so that the value in the log is the "
     "one the script named rests on the correspondence check; the theorems say that what harness code set is kept "
     "(C11_set_outcome_kept) and that the library sets nothing but the batch's error / 'not set' / `_result` on items "
@@ -705,9 +711,8 @@ def signature(case, v):
     if case["kind"] == "debug" and case.get("name", "plain") != "plain":
         return "debug-nonstr-name/%s" % v["spec"]
     if case["kind"] == "user" and case.get("hook"):
-        # the subclass's _cancel() raises.  ONE signature for the open finding, and only when the implementation did
-        # exactly what the model of the defective code (Lib/BatchingHook.lean stepH) predicts (CORR=ok): anything else
-        # that goes wrong in such a case keeps its own signature and is not masked by the recorded finding
+        # the subclass's _cancel() raises (finding fixed by f2f3435: no open entry has this signature any more, so every
+        # failure of such a case is reported)
         return "user-cancel-hook/%s" % v["spec"]
     return "%s/%s" % (case["kind"], v["spec"])
 
